@@ -17,7 +17,7 @@ func init() {
 	fw.Register(&fw.Check{Prop: "C15", Level: "fault_enumeration",
 		Assume: []string{
 			"reference model ref/xfr (RFC 5936 §2.2, RFC 1995 §4, RFC 8945 §5.3.1) decides where a transfer ends and which streams must be refused",
-			"Msg.Pack/Unpack (C01) and the TSIG digest dns.TsigGenerate/dns.TsigVerify (C11) are plumbing: the scripted server packs with Msg.Pack and signs with TsigGenerate; which MAC is chained into which message, and with timers only or not, is decided by the harness",
+			"Msg.Pack/Unpack (C01) is plumbing: the scripted server packs with Msg.Pack; it signs, and what the library sends is verified, with the independent RFC 8945 model ref/tsig (since round 13; before, the library's own TsigGenerate / TsigVerify were used, which a digest changed on both sides passes); which MAC is chained into which message, and with timers only or not, is decided by the harness",
 			"only the fact of an error is compared, not which error value the library reports",
 			"an empty answer section inside a transfer is covered by no RFC clause: either tolerating it or reporting an error at that message is accepted",
 			"without TSIG nothing protects message content: an altered octet is only required to leave the structural guarantees intact (one terminal error at most, nothing after it, connection closed before the channel)",
@@ -70,7 +70,7 @@ func c15ParseRequest(written []byte, writes int, sh *c15shape, tsig bool) (*dns.
 		if t == nil {
 			return nil, "", "TSIG configured but the request is not signed"
 		}
-		if err := dns.TsigVerify(append([]byte(nil), written[2:]...), c15Secret, "", false); err != nil {
+		if err := c15RefVerify(append([]byte(nil), written[2:]...), c15Secret, "", false); err != nil {
 			return nil, "", "request TSIG does not verify: " + err.Error()
 		}
 		mac = t.MAC
@@ -231,7 +231,18 @@ func c15Judge(r *fw.R, desc func() string, ctx string, q rx.Query, envs []rx.Env
 }
 
 // c15Check runs one script on the real Transfer.In and judges it; returns the reference verdict.
+// c15Check judges one script; a script with TSIG is run twice: with the keys in Transfer.TsigSecret, and with the same
+// keys behind Transfer.TsigProvider (beside a TsigSecret map of other secrets).
 func c15Check(r *fw.R, s *c15script, lay []c15msgLayout) rx.Verdict {
+	if s.tsig && !s.viaProvider {
+		s2 := *s
+		s2.viaProvider = true
+		c15CheckOne(r, &s2, lay)
+	}
+	return c15CheckOne(r, s, lay)
+}
+
+func c15CheckOne(r *fw.R, s *c15script, lay []c15msgLayout) rx.Verdict {
 	if lay == nil {
 		lay, _ = s.layout()
 	}
@@ -253,6 +264,7 @@ func c15Check(r *fw.R, s *c15script, lay []c15msgLayout) rx.Verdict {
 		secrets = c15Secrets()
 	}
 	problem := ""
+	c15ViaProvider = s.viaProvider
 	res := c15In(s.sh.query(s.tsig), secrets, s.seg, func(written []byte) []byte {
 		req, mac, p := c15ParseRequest(written, 1, s.sh, s.tsig)
 		if p != "" {
@@ -686,7 +698,7 @@ func c15OutCase(r *fw.R, sh *c15shape, mask int, tsig bool) {
 			r.Fail("out/unsigned-message", "%s: message %d of a signed transfer carries no TSIG", desc(), i)
 			break
 		}
-		if err := dns.TsigVerify(append([]byte(nil), raw...), c15Secret, prev, i > 0); err != nil {
+		if err := c15RefVerify(append([]byte(nil), raw...), c15Secret, prev, i > 0); err != nil {
 			r.Fail("out/tsig-chain", "%s: message %d does not verify over the %s with %s: %v", desc(), i,
 				map[bool]string{false: "request MAC", true: "previous message's MAC"}[i > 0],
 				map[bool]string{false: "all TSIG variables", true: "timers only"}[i > 0], err)
@@ -718,7 +730,7 @@ func c15OutCase(r *fw.R, sh *c15shape, mask int, tsig bool) {
 				if first {
 					prev = reqMAC
 				}
-				if err := dns.TsigVerify(append([]byte(nil), raw...), c15Secret, prev, !first); err != nil {
+				if err := c15RefVerify(append([]byte(nil), raw...), c15Secret, prev, !first); err != nil {
 					r.Fail("out/second-transfer/tsig-chain", "%s: two identical signed requests on one connection: message %d (message %d of transfer %d) does not verify (%s): %v", desc(), i, i%len(envRR), i/len(envRR)+1,
 						map[bool]string{true: "over the request MAC with all TSIG variables", false: "over the previous message's MAC, timers only"}[first], err)
 					break
